@@ -175,6 +175,7 @@ class Graph:
         self.nodes = []
         self.index = {}  # id(obj) -> node index
         self.keep = []  # keeps objects alive so ids stay unique
+        self.dict_owner = {}  # id(instance __dict__) -> node index: objects that share their attribute dict are ONE cell
 
     def add(self, root, path="", stop=None, limit=2_000_000):
         """walk from root; returns node index of root (or None for atoms). `stop(obj)` -> True: node is
@@ -189,8 +190,21 @@ class Graph:
             o, p, par = todo.pop()
             if id(o) in self.index:
                 continue
+            d = None if isinstance(o, (list, tuple, dict, set, frozenset, collections.deque)) else getattr(o, "__dict__", None)
+            if isinstance(d, dict):
+                j = self.dict_owner.get(id(d))
+                if j is not None and self.nodes[j]["obj"] is not o:
+                    # copy.copy() of an object whose __getstate__/__setstate__ hand over the __dict__ itself (DXFNamespace):
+                    # a second wrapper around the same state
+                    self.index[id(o)] = j
+                    self.keep.append(o)
+                    if first is None:
+                        first = j
+                    continue
             kind, ch = children(o)
             i = len(self.nodes)
+            if isinstance(d, dict):
+                self.dict_owner[id(d)] = i
             if first is None:
                 first = i
             node = {"obj": o, "kind": kind, "type": tname(o), "edges": [], "nav": [], "path": p, "pending": [], "parent": par}
@@ -1266,6 +1280,9 @@ def specific_mutators(e, rng):
         add("lw.delitem", lambda x: x.__delitem__(0))
         add("lw.points_ctx", lambda x: _ctx(x.points("xyb"), lambda pts: pts.append((4, 4, 1))))
         add("lw.raw_values", lambda x: x.lwpoints.values.__setitem__((0, 0), 123.0))
+        add("lw.setitem_last", lambda x: x.__setitem__(len(x) - 1, (8, 8, 0, 0, 0)))
+        add("lw.row_view", lambda x: x.lwpoints.values[0].__setitem__(slice(None), 5.0))
+        add("lw.vertices_inplace", lambda x: [row.__setitem__(0, row[0] + 1.0) for row in x.lwpoints.values])
     if t in ("Polyline", "Polyface", "Polymesh"):
         add("pl.vertex_location", lambda x: setattr(x.vertices[0].dxf, "location", Vec3(9, 9, 9)))
         add("pl.vertex_bulge", lambda x: setattr(x.vertices[0].dxf, "bulge", 0.75))
@@ -1386,6 +1403,8 @@ def specific_mutators(e, rng):
         add("in.attrib_transform", lambda x: x.attribs[0].transform(Matrix44.translate(1, 1, 1)))
         add("in.attrib_embedded_mtext", lambda x: setattr(x.attribs[1]._embedded_mtext.dxf, "char_height", 9.0))
         add("in.attrib_embedded_text", lambda x: setattr(x.attribs[1]._embedded_mtext, "text", "changed"))
+        add("in.attrib_embedded_transform", lambda x: x.attribs[1].transform(Matrix44.translate(2, 3, 4)))
+        add("in.attrib_set_mtext_again", lambda x: x.attribs[1].set_mtext(_mtext_for(x.attribs[1])))
         add("in.delete_attrib", lambda x: x.delete_attrib("TAG1"))
         add("in.delete_all_attribs", lambda x: x.delete_all_attribs())
         add("in.attribs_list", lambda x: x.attribs.pop())
@@ -1393,6 +1412,8 @@ def specific_mutators(e, rng):
         add("in.grid", lambda x: x.grid(size=(2, 2), spacing=(5, 5)))
     if t in ("Attrib", "AttDef"):
         add("at.embedded_none_to_set", lambda x: x.set_mtext(_mtext_for(x)) if hasattr(x, "set_mtext") else _raise())
+        add("at.embedded_attr", lambda x: setattr(x._embedded_mtext.dxf, "char_height", 7.0))
+        add("at.embedded_text", lambda x: setattr(x._embedded_mtext, "text", "changed"))
     if t == "Viewport":
         add("vp.frozen_layers_append", lambda x: x.frozen_layers.append("L9"))
         add("vp.frozen_layers_assign", lambda x: setattr(x, "frozen_layers", ["A"]))
@@ -1595,7 +1616,8 @@ def _raw_mutate(o):
     elif np is not None and isinstance(o, np.ndarray):
         if o.size == 0:
             raise LookupError("empty array")
-        o.flat[0] = o.flat[0] + 1
+        o.flat[0] = o.flat[0] + 1       # in-place element writes: first and last element of the buffer
+        o.flat[o.size - 1] = o.flat[o.size - 1] + 1
     elif tname(o) == "Matrix44":
         o *= Matrix44.translate(1, 2, 3)
     elif hasattr(o, "__dict__"):
@@ -3065,6 +3087,15 @@ class Opaque(Exception):
     pass
 
 
+def _oid(o):
+    """identity of the STATE of an object: the id of its instance __dict__ if it has one (two wrappers around one attribute dict
+    are the same mutable cell), else the id of the object"""
+    if isinstance(o, (list, tuple, dict, set, frozenset, collections.deque)):
+        return id(o)
+    d = getattr(o, "__dict__", None)
+    return id(d) if isinstance(d, dict) else id(o)
+
+
 class TreeView:
     """value trees of real objects in the syntax of the Lean driver.  source(e) numbers the objects of the source;
     render(c) writes the copy relative to that numbering (s<addr> = the very object of the source)."""
@@ -3084,8 +3115,8 @@ class TreeView:
 
     def nav(self, o):
         """navigation reference: to an object of the source by its address, to anything else by a code >= 10^6"""
-        if id(o) in self.addr:
-            return f"n{self.addr[id(o)]}"
+        if _oid(o) in self.addr:
+            return f"n{self.addr[_oid(o)]}"
         if id(o) not in self.navs:
             self.navs[id(o)] = 1000000 + len(self.navs)
             self.keep.append(o)
@@ -3143,21 +3174,21 @@ class TreeView:
             owner, via = tname(o), label
         self.ctx[id(c)] = (owner, via)
         start = len(self.addr)
-        known = id(c) in self.addr
+        known = _oid(c) in self.addr
         out = self.tree(c, number, path)
         if number and _frozen_by_rule(c, owner, via):
             self.frozen_addrs.update(range(start + 1, len(self.addr) + 1))
             if known:
-                self.frozen_addrs.add(self.addr[id(c)])
+                self.frozen_addrs.add(self.addr[_oid(c)])
         return out
 
     def _address(self, o, number):
         if not number:
             return 0
-        if id(o) not in self.addr:
-            self.addr[id(o)] = len(self.addr) + 1
+        if _oid(o) not in self.addr:
+            self.addr[_oid(o)] = len(self.addr) + 1
             self.keep.append(o)
-        return self.addr[id(o)]
+        return self.addr[_oid(o)]
 
     def _opaque_content(self, o):
         """arrays and extension objects: one leaf with the content"""
@@ -3171,7 +3202,7 @@ class TreeView:
         if is_atom(o):
             return self.atom(o)
         if id(o) in path:
-            if number and id(o) in self.addr:
+            if number and _oid(o) in self.addr:
                 return self.nav(o)  # a reference back to an object on the path (BLOCK_RECORD <-> its layout): identity only
             raise Opaque("cyclic value")
         path = path + (id(o),)
@@ -3218,8 +3249,8 @@ class TreeView:
         """copy side: s<addr> for an object of the source (unless it is an immutable value), else the new object"""
         if is_atom(o):
             return self.atom(o)
-        if id(o) in self.addr and not self.is_deep_imm(o):
-            return f"s{self.addr[id(o)]}"
+        if _oid(o) in self.addr and not self.is_deep_imm(o):
+            return f"s{self.addr[_oid(o)]}"
         if id(o) in path:
             raise Opaque("cyclic value")
         path = path + (id(o),)
